@@ -35,12 +35,16 @@ class C15(Check):
         # the same decisions with an OpenSSH configuration file given (ssh_config=...), whose options must not weaken the verification
         CFG = [['StrictHostKeyChecking no'], ['StrictHostKeyChecking accept-new'], ['StrictHostKeyChecking off', 'CheckHostIP no'],
                ['StrictHostKeyChecking yes'], ['UpdateHostKeys yes', 'HashKnownHosts yes'], ['VerifyHostKeyDNS yes', 'StrictHostKeyChecking ask'],
-               ['NoHostAuthenticationForLocalhost yes'], ['User u', 'ServerAliveInterval 10']]
+               ['NoHostAuthenticationForLocalhost yes'], ['User u', 'ServerAliveInterval 10'], ['HostKeyAlias lab-gateway'], ['HostKeyAlias lab-gateway', 'CheckHostIP no']]
         k = 0
-        for known, pinned, cb, cfg in itertools.product('ahpd', 'amd', (True, False), CFG):
+        for known, pinned, cb, cfg in itertools.product('ahpdk', 'amd', (True, False), CFG):
             k += 1
             out.append({'kind': 'ssh', 'verify': True, 'known': known, 'pinned': pinned, 'cb': cb, 'profile': 'default', 'negotiates': True,
                         'auths': [True] if k % 4 else [False], 'subs': [True], 'sshcfg': cfg, 'sshcfg_host': ['*', 'device.example', 'device.*'][k % 3]})
+        # a connection handed over as a socket with host=None (documented for sock_fd): the pinned key and the callback still decide
+        for pinned, cb in itertools.product('amd', (True, False, None)):
+            out.append({'kind': 'ssh', 'verify': True, 'known': 'a', 'pinned': pinned, 'cb': cb, 'profile': 'default', 'negotiates': True,
+                        'auths': [True], 'subs': [True], 'nohost': True})
         out.append({'kind': 'ssh', 'verify': True, 'known': 'h', 'pinned': 'a', 'cb': False, 'profile': 'default', 'negotiates': False,
                     'auths': [True], 'subs': [True]})
         out.append({'kind': 'ssh', 'verify': True, 'known': 'a', 'pinned': 'a', 'cb': True, 'profile': 'nexus', 'negotiates': True,
@@ -136,7 +140,7 @@ class C15(Check):
 
     def _line(self, case):
         cb = True if case['profile'] in OVERRIDING else bool(case['cb'])
-        return 'cn ssh %d %s %s %d %d %s %s' % (case['verify'], 'a' if case['known'] in 'iw' else case['known'], case['pinned'], cb, case['negotiates'], bits(case['auths']), bits(case['subs']))
+        return 'cn ssh %d %s %s %d %d %s %s' % (case['verify'], 'a' if case['known'] in 'iwk' else case['known'], case['pinned'], cb, case['negotiates'], bits(case['auths']), bits(case['subs']))
 
     def model_lines(self, case):
         if case['kind'] == 'sshseq':
